@@ -1275,6 +1275,25 @@ Proof.
   apply in_map_iff. exists kv. now split.
 Qed.
 
+(** TrimSpace removes white space only: x = blanks ++ trim x ++ blanks. *)
+Lemma trim_left_decomp : forall x, exists a, all_space a /\ x = a ++ trim_left x.
+Proof.
+  induction x as [|c x [a [Ha E]]].
+  - exists []. now split.
+  - cbn [trim_left]. destruct (is_space c) eqn:Ec.
+    + exists (c :: a). split; [unfold all_space in *; cbn [forallb]; now rewrite Ec|]. cbn [app]. now rewrite <- E.
+    + exists []. now split.
+Qed.
+
+Theorem trim_only_blanks : forall x, exists a b, all_space a /\ all_space b /\ x = a ++ trim x ++ b.
+Proof.
+  intro x. destruct (trim_left_decomp x) as [a [Ha Ea]].
+  destruct (trim_left_decomp (rev (trim_left x))) as [b [Hb Eb]].
+  exists a, (rev b). split; [assumption|]. split; [unfold all_space; now rewrite forallb_rev|].
+  unfold trim, trim_right. rewrite !frev_rev. rewrite Ea at 1. f_equal.
+  rewrite <- (rev_involutive (trim_left x)) at 1. rewrite Eb at 1. now rewrite rev_app_distr.
+Qed.
+
 (** The splitter loses nothing but line terminators: every byte other than "\n" and "\r" is in
     the physical lines, in order. *)
 Lemma flat_map_cons_first : forall c ls,
